@@ -29,6 +29,11 @@ import time
 from typing import Any, Callable, Dict, List, Optional, Tuple
 
 
+class Killed(BaseException):
+    """the worker process / thread dies at an injected crash point (not an `Exception`: nothing in the code under
+    test may swallow it); `with` blocks it unwinds through release their locks, as a lock lease expiring would"""
+
+
 class _Abort(BaseException):
     """raised inside a parked worker thread to unwind it when a run is abandoned"""
 
@@ -42,7 +47,8 @@ def _binsem():
 
 
 class _T:
-    __slots__ = ("tid", "sem", "pending", "blocked", "finished", "result", "exc", "thread", "started", "started_running")
+    __slots__ = ("tid", "sem", "pending", "blocked", "finished", "result", "exc", "thread", "started", "started_running",
+                 "killed")
 
     def __init__(self, tid: int):
         self.tid = tid
@@ -55,6 +61,7 @@ class _T:
         self.thread: Optional[threading.Thread] = None
         self.started = False
         self.started_running = False
+        self.killed = False
 
 
 # context switches only at these operations (plus each thread's first one) in coarse mode;
@@ -89,6 +96,8 @@ class Sched:
     def yield_point(self, label: str, blocked: Optional[Callable[[], bool]] = None):
         t = getattr(self.tl, "t", None)
         if t is None:  # set-up / inspection code on the controller thread
+            return
+        if t.killed:  # unwinding after an injected crash: no further step of this thread is scheduled or shown
             return
         if (
             self.coarse is not None
@@ -128,6 +137,12 @@ class Sched:
     def current(self) -> Optional[int]:
         t = getattr(self.tl, "t", None)
         return None if t is None else t.tid
+
+    def kill_current(self):
+        t = getattr(self.tl, "t", None)
+        if t is not None:
+            t.killed = True
+        raise Killed()
 
     def _main(self, t: _T, fn: Callable[[], Any]):
         self.tl.t = t
@@ -318,6 +333,8 @@ class FakeS3:
         self.objects: Dict[str, bytes] = {}
         self.args: List[Tuple[str, Dict[str, Any]]] = []
         self.faults: Dict[int, str] = {}  # thread -> "c" (its create call) / "u" (its upload / complete call)
+        self.kills: Dict[int, str] = {}   # thread -> "X" (dies right after its create call was carried out) / "x" (... upload / complete)
+        self.page_size: Optional[int] = None  # list_multipart_uploads answers with at most that many uploads
         self.fired: List[int] = []
         self.calls: List[str] = []
         self.ncreate = 0
@@ -335,17 +352,38 @@ class FakeS3:
             self.fired.append((tid, kind))
             raise TransientError(f"injected failure of thread {tid}'s storage call")
 
+    def _kill(self, kind: str):
+        tid = self.sched.current()
+        if tid is not None and kind in self.kills.get(tid, "") and (tid, kind) not in self.fired:
+            self.fired.append((tid, kind))
+            self.sched.kill_current()
+
     def _live(self, uid, key=None):
         if self.strict and (uid not in self.active or (key is not None and self.key_of.get(uid, key) != key)):
             raise NoSuchUpload(uid)
 
-    def list_multipart_uploads(self, Bucket, Prefix):  # noqa: N803
+    def list_multipart_uploads(self, Bucket, Prefix, KeyMarker=None, UploadIdMarker=None, **kw):  # noqa: N803
         self.sched.yield_point("list")
         self.calls.append("list")
-        self.args.append(("list", {"Bucket": Bucket, "Prefix": Prefix}))
+        self.args.append(("list", {"Bucket": Bucket, "Prefix": Prefix, "UploadIdMarker": UploadIdMarker}))
         hits = [u for u in self.active if self.key_of.get(u, Prefix).startswith(Prefix)]
+        if UploadIdMarker is not None:
+            hits = [u for u in hits if (self.key_of.get(u, Prefix), int(u[2:])) >
+                    (KeyMarker or Prefix, int(UploadIdMarker[2:]))]
         hits.sort(key=lambda u: (self.key_of.get(u, Prefix), int(u[2:])))
-        return {"Uploads": [{"UploadId": u, "Key": self.key_of.get(u, Prefix)} for u in hits]} if hits else {}
+        out: Dict[str, Any] = {}
+        if self.page_size is not None and len(hits) > self.page_size:
+            hits = hits[: self.page_size]
+            out.update(IsTruncated=True, NextKeyMarker=self.key_of.get(hits[-1], Prefix), NextUploadIdMarker=hits[-1])
+        if hits:
+            out["Uploads"] = [{"UploadId": u, "Key": self.key_of.get(u, Prefix)} for u in hits]
+        return out
+
+    def get_object(self, Bucket, Key, **kw):  # noqa: N803
+        import io
+
+        self.args.append(("get", {"Bucket": Bucket, "Key": Key, "kw": dict(kw)}))
+        return {"Body": io.BytesIO(self.objects.get(Key, b"") if "Range" not in kw else b"ranged:" + kw["Range"].encode())}
 
     def abort_multipart_upload(self, Bucket, Key, UploadId):  # noqa: N803
         self.sched.yield_point("abort")
@@ -369,6 +407,7 @@ class FakeS3:
         self.bodies[uid] = {}
         self.calls.append(f"create={uid}")
         self.args.append(("create", {"Bucket": Bucket, "Key": Key, "kw": dict(kw)}))
+        self._kill("X")
         return {"UploadId": uid}
 
     def upload_part(self, PartNumber, Body, Bucket, Key, UploadId):  # noqa: N803
@@ -381,6 +420,7 @@ class FakeS3:
         self._live(UploadId, Key)
         self.uploads.append((PartNumber, UploadId))
         self.bodies.setdefault(UploadId, {})[PartNumber] = bytes(Body)
+        self._kill("x")
         return {"ETag": f"etag{PartNumber}"}
 
     def complete_multipart_upload(self, Bucket, Key, UploadId, MultipartUpload):  # noqa: N803
@@ -405,6 +445,7 @@ class FakeS3:
             self.active.remove(UploadId)
             self.completed.append(UploadId)
             self.bodies.pop(UploadId, None)
+        self._kill("x")
         return {"ETag": "final"}
 
 
@@ -780,6 +821,9 @@ class System:
         CURRENT["getfaults"] = {i: {n for c, n in (("g", 1), ("G", 2)) if c in f} for i, f in enumerate(flags)
                                 if "g" in f or "G" in f}
         CURRENT["ngets"] = {}
+        # "w1!x": the thread dies right after its upload_part / complete call was carried out; "w1!X": right after its
+        # create_multipart_upload call was carried out (inside the publication window)
+        self.s3.kills = {i: "".join(c for c in f if c in "xX") for i, f in enumerate(flags) if "x" in f or "X" in f}
         def begin(i):
             # no line of the real code runs before the thread is given its first step: whatever the code does ahead
             # of its first shared operation (e.g. evaluate `mpu.started`) belongs to that step, not to the set-up
@@ -1020,6 +1064,40 @@ def has_ensure_init() -> bool:
         return fn is not None and "final_write" in inspect.signature(fn).parameters
     except (TypeError, ValueError):
         return False
+
+
+def run_read() -> Dict[str, Any]:
+    """`MultiPartUpload.read(**kw)` (177-179): the object's bytes through `get_object(Bucket, Key, **kw)`"""
+    with _Patched() as px:
+        px.s3.objects["some/key.tif"] = b"the object"
+        mpu = instr_mpu_class()("bucket", "some/key.tif")
+        whole = mpu.read()
+        part = mpu.read(Range="bytes=0-3")
+        return {"whole": whole, "part": part, "args": [a for n, a in px.s3.args if n == "get"]}
+
+
+def run_paged_cancel(page: int, n: int, m: int) -> Dict[str, Any]:
+    """`n` active uploads of the object's key that other processes left behind (orphans), a service that lists `page`
+    uploads per request, `cancel("all")` called `m` times (model `cancelAllPagedN`)"""
+    with _Patched() as px:
+        s3 = px.s3
+        s3.page_size = page
+        for _ in range(n):
+            s3.create_multipart_upload(Bucket="bucket", Key="some/key.tif")
+        s3.calls.clear()
+        mpu = instr_mpu_class()("bucket", "some/key.tif")
+        first: List[str] = []
+        err = None
+        for i in range(m):
+            n0 = len(s3.calls)
+            try:
+                mpu.cancel("all")
+            except Exception as e:  # pylint: disable=broad-except
+                err = type(e).__name__
+            if i == 0:
+                first = s3.calls[n0:]
+        text = f"first-call={','.join(first)} ; active-after-{m}=[{','.join(s3.active)}]"
+        return {"text": text, "active": list(s3.active), "error": err, "uid": uid_of(mpu)}
 
 
 def run_up(min_size: int, writes: List[Tuple[int, str]], plist: List[int], writes2: List[Tuple[int, str]],
